@@ -241,7 +241,7 @@ struct Plan {
     base_cap: usize,
 }
 
-const DIRECTED: usize = 14;
+const DIRECTED: usize = 17;
 
 fn plan(tier_quick: bool, items: &[Item]) -> Plan {
     let dev = std::env::var("VERIF_C10_MUTANTS").ok().and_then(|s| s.parse::<usize>().ok());
@@ -344,6 +344,62 @@ fn directed_case(items: &[Item], d: usize) -> Option<Case> {
             v.append(&mut seg);
             v.extend_from_slice(&b[at..]);
             Some(Case { base: "signed:tiny.jpg".into(), base_fmt: "jpg".into(), kind: "elem-dup+directed".into(), evals: vec![Eval { ep: Ep::WithStream, hint: "jpg".into(), bytes: Arc::new(v.clone()), store: None }, Eval { ep: Ep::LoadJumbf, hint: "jpg".into(), bytes: Arc::new(v), store: None }] })
+        }
+        14 | 15 | 16 => {
+            // "short manifest element" sweep: the element that carries the manifest, well-formed as a
+            // container element (consistent length fields) but with its payload cut to every length
+            // 0..=N — the inputs on which an off-by-one in a handler's minimum-length guard indexes past
+            // the end.  One case, one evaluation per length and entry point.
+            let c2pa_uuid: [u8; 16] = [0x63, 0x32, 0x70, 0x61, 0x00, 0x11, 0x00, 0x10, 0x80, 0x00, 0x00, 0xAA, 0x00, 0x38, 0x9B, 0x71];
+            // jumb payload: jumd(size, "jumd", uuid, toggles 3, "c2pa\0") + an empty cbor box
+            let mut jumd = Vec::new();
+            jumd.extend_from_slice(&c2pa_uuid);
+            jumd.push(3);
+            jumd.extend_from_slice(b"c2pa\0");
+            let mut jumb_payload = jumbf::make_box(b"jumd", &jumd);
+            jumb_payload.extend_from_slice(&jumbf::make_box(b"cbor", &[0xA0]));
+            let (fmt, name, fulls): (&str, &str, Vec<Vec<u8>>) = match d {
+                14 => {
+                    let base = vmon::embedkit::tiny_jxl(false);
+                    ("jxl", "tiny.jxl", (0..=jumb_payload.len()).map(|l| { let mut v = base.clone(); v.extend_from_slice(&jumbf::make_box(b"jumb", &jumb_payload[..l])); v }).collect())
+                }
+                15 => {
+                    let base = items.iter().find(|i| i.name == "tiny.mp4")?.bytes.clone();
+                    // uuid box: usertype, version/flags, purpose "manifest\0", merkle offset, JUMBF
+                    let mut pl = vec![0xD8, 0xFE, 0xC3, 0xD6, 0x1B, 0x0E, 0x48, 0x3C, 0x92, 0x97, 0x58, 0x28, 0x87, 0x7E, 0xC4, 0x81, 0, 0, 0, 0];
+                    pl.extend_from_slice(b"manifest\0");
+                    pl.extend_from_slice(&[0u8; 8]);
+                    pl.extend_from_slice(&jumbf::make_box(b"jumb", &jumb_payload));
+                    ("mp4", "tiny.mp4", (0..=pl.len()).map(|l| { let mut v = base.clone(); v.extend_from_slice(&jumbf::make_box(b"uuid", &pl[..l])); v }).collect())
+                }
+                _ => {
+                    let base = items.iter().find(|i| i.name == "tiny.wav")?.bytes.clone();
+                    if base.len() < 12 || &base[..4] != b"RIFF" {
+                        return None;
+                    }
+                    let full = jumbf::make_box(b"jumb", &jumb_payload);
+                    ("wav", "tiny.wav", (0..=full.len().min(48)).map(|l| {
+                        let mut v = base.clone();
+                        v.extend_from_slice(b"C2PA");
+                        v.extend_from_slice(&(l as u32).to_le_bytes());
+                        v.extend_from_slice(&full[..l]);
+                        if l % 2 == 1 {
+                            v.push(0);
+                        }
+                        let riff_len = (v.len() - 8) as u32;
+                        v[4..8].copy_from_slice(&riff_len.to_le_bytes());
+                        v
+                    }).collect())
+                }
+            };
+            let mut evals = Vec::new();
+            for v in fulls {
+                let b = Arc::new(v);
+                evals.push(Eval { ep: Ep::WithStream, hint: fmt.into(), bytes: b.clone(), store: None });
+                evals.push(Eval { ep: Ep::LoadJumbf, hint: fmt.into(), bytes: b.clone(), store: None });
+                evals.push(Eval { ep: Ep::Ingredient, hint: fmt.into(), bytes: b, store: None });
+            }
+            Some(Case { base: name.into(), base_fmt: fmt.into(), kind: "elem-short+directed".into(), evals })
         }
         11 | 12 => {
             // minimal TIFF whose only IFD entry is a SubIFDs tag (0x014A, LONG) with a forged count
